@@ -308,14 +308,29 @@ class StmtMixin:
         continue
       if isinstance(target, VOpt):
         target = target.val
-      if isinstance(target, (VMList, VIter, VMap)):
+      if isinstance(target, (VMList, VIter, VMap, VQueue)):
         self.havoc_in_place(target, expr + '@loop')
       elif isinstance(target, VList):
-        raise Unsupported('loop mutates a concrete-length list')
+        self.promote_list(target)
+        self.havoc_in_place(target, expr + '@loop')
     for g in (spec or {}).get('havoc_ghost', ()):
-      self.ghost[g] = self.fresh_like(self.ghost[g], g + '@loop')
+      if isinstance(self.ghost[g], (VMList, VIter, VMap, VQueue)):
+        self.havoc_in_place(self.ghost[g], g + '@loop')
+      else:
+        self.ghost[g] = self.fresh_like(self.ghost[g], g + '@loop')
     if self.yield_log is not None:
       self.havoc_in_place(self.yield_log, 'out@loop')
+
+  def promote_list(self, lst):
+    """A concrete-length list that a loop mutates becomes a symbolic-length list (same identity)."""
+    arr = z3.K(z3.IntSort(), self.to_obj(NONE))
+    for i, x in enumerate(lst.items):
+      arr = z3.Store(arr, i, self.to_obj(x))
+    n = len(lst.items)
+    del lst.items
+    lst.__class__ = VMList
+    lst.seq = VSeq(arr, z3.IntVal(n), 'obj')
+    lst.is_deque = False
 
   def _havoc_attrs(self, v, attrs, seen):
     if isinstance(v, VOpt):
@@ -327,7 +342,7 @@ class StmtMixin:
       for a in list(v.f):
         if a in attrs and not v.frozen:
           fv = v.f[a]
-          if isinstance(fv, (VMList, VIter, VMap)):
+          if isinstance(fv, (VMList, VIter, VMap, VQueue)):
             self.havoc_in_place(fv, f'{v.tag}.{a}@loop')
           else:
             v.f[a] = self.fresh_like(fv, f'{v.tag}.{a}@loop')
